@@ -2,6 +2,7 @@
 package c16
 
 import (
+	"encoding/hex"
 	"encoding/json"
 	"fmt"
 	"math"
@@ -107,7 +108,48 @@ func sameKeys(m map[string]any, name string) string {
 	return ""
 }
 
-var ids = map[string]bool{}
+// every identifier produced in the run (tens of millions in the thorough tier): UUID strings are kept as their 16
+// bytes, anything else as the string itself
+var ids = idSet{}
+
+type idSet struct {
+	u map[[16]byte]struct{}
+	s map[string]struct{}
+}
+
+func (x *idSet) key(id string) ([16]byte, bool) {
+	var k [16]byte
+	if len(id) != 36 || id[8] != '-' || id[13] != '-' || id[18] != '-' || id[23] != '-' {
+		return k, false
+	}
+	h := id[0:8] + id[9:13] + id[14:18] + id[19:23] + id[24:36]
+	if _, err := hex.Decode(k[:], []byte(h)); err != nil {
+		return k, false
+	}
+	return k, true
+}
+
+func (x *idSet) has(id string) bool {
+	if k, ok := x.key(id); ok {
+		_, in := x.u[k]
+		return in
+	}
+	_, in := x.s[id]
+	return in
+}
+
+func (x *idSet) add(id string) {
+	if x.u == nil {
+		x.u, x.s = map[[16]byte]struct{}{}, map[string]struct{}{}
+	}
+	if k, ok := x.key(id); ok {
+		x.u[k] = struct{}{}
+		return
+	}
+	x.s[id] = struct{}{}
+}
+
+var copiedRunsN int
 
 const tol = 1e-12
 
@@ -133,10 +175,10 @@ func checkDocN(r *result.Results, nRuns int, lens []int, finished bool) (key str
 		if id == "" {
 			return "id/empty", ""
 		}
-		if ids[id] {
+		if ids.has(id) {
 			return "id/reused", id
 		}
-		ids[id] = true
+		ids.add(id)
 	}
 	// hops
 	maxLen, minLen := 0, 1<<30
@@ -324,17 +366,19 @@ func checkDocN(r *result.Results, nRuns int, lens []int, finished bool) (key str
 	}
 	// a document assembled from runs that already carry identifiers (its first run copied twice out of this finished
 	// result, the result's own test identifier kept): once normalised, its identifiers are fresh and pairwise distinct too
-	if !finished && len(r.Traceroute.Runs) > 0 && len(r.Traceroute.Runs[0].Hops) < 1000 {
+	copiedRunsN++
+	if !finished && len(r.Traceroute.Runs) > 0 && len(r.Traceroute.Runs[0].Hops) < 1000 && copiedRunsN%16 == 1 {
+		// (every sixteenth document: the identifier table of a thorough run already holds tens of millions of entries)
 		d2 := result.Results{TestRunID: r.TestRunID, Traceroute: result.Traceroute{Runs: []result.TracerouteRun{r.Traceroute.Runs[0], r.Traceroute.Runs[0]}}}
 		d2.Normalize()
 		for _, id := range []string{d2.TestRunID, d2.Traceroute.Runs[0].RunID, d2.Traceroute.Runs[1].RunID} {
 			if id == "" {
 				return "id/empty", "document assembled from copied runs"
 			}
-			if ids[id] {
+			if ids.has(id) {
 				return "id/reused", "document assembled from copied runs: " + id
 			}
-			ids[id] = true
+			ids.add(id)
 		}
 	}
 	return "", ""
@@ -531,7 +575,7 @@ func replay(scn json.RawMessage, choices []int) (string, bool) {
 			for ci, c := range cs {
 				if c.kind == w.Doc.Kind && w.Doc.Index >= c.lo && w.Doc.Index < c.lo+8192 {
 					r := &core.ScnResult{}
-					ids = map[string]bool{}
+					ids = idSet{}
 					run(tier, ci, r)
 					if len(r.Failures) > 0 {
 						return fmt.Sprintf("ORACLE FAILED: %s: %s\n", r.Failures[0].Key, r.Failures[0].What), false
